@@ -909,8 +909,10 @@ def structLoop (env : Env) (de : Schema → Bytes → Nat → TOut) (fs : List (
              | some _ => .raw r1 p1                                           -- duplicate_field
              | none =>
                (parseObjectColon env r1 p1).bind fun _ r2 p2 =>
-                 (de ((fs.getD i default).2) r2 p2).bind fun v r3 p3 =>
-                   structLoop env de fs deny n false (slots.set i (some v)) r3 p3)
+                 match fs[i]? with
+                 | some (_, s) =>
+                   (de s r2 p2).bind fun v r3 p3 => structLoop env de fs deny n false (slots.set i (some v)) r3 p3
+                 | none => .raw r2 p2)                                        -- not reached: `i` indexes `fs`
           | none =>
             if deny then .raw r1 p1                                           -- unknown_field
             else
@@ -1001,17 +1003,20 @@ def deEnum (env : Env) (t : Nat) (de : Nat → Schema → Bytes → Nat → TOut
         (deVariantId env (variantNames vs) r (p + 1)).bind fun iv r1 p1 =>
           let i := match iv with | .int i => i.toNat | _ => 0
           (parseObjectColon env r1 p1).bind fun _ r2 p2 =>
-            (dePayload env (t + 1) de ((vs.getD i default).2) r2 p2).bind fun payload r3 p3 =>
-              match skipWs r3 p3 with
-              | ([], q) => atEof env .EofWhileParsingObject q
-              | (c :: r4, q) =>
-                if c == 0x7d then .ok (.variant i payload) r4 (q + 1)
-                else .err .ExpectedSomeValue (errorIdx env (c :: r4) q true)
+            match vs[i]? with
+            | none => .raw r2 p2                                              -- not reached: `i` indexes `vs`
+            | some (_, sh) =>
+              (dePayload env (t + 1) de sh r2 p2).bind fun payload r3 p3 =>
+                match skipWs r3 p3 with
+                | ([], q) => atEof env .EofWhileParsingObject q
+                | (c :: r4, q) =>
+                  if c == 0x7d then .ok (.variant i payload) r4 (q + 1)
+                  else .err .ExpectedSomeValue (errorIdx env (c :: r4) q true)
     else if b == 0x22 then
       (deVariantId env (variantNames vs) (b :: r) p).bind fun iv r1 p1 =>
         let i := match iv with | .int i => i.toNat | _ => 0
-        match (vs.getD i default).2 with
-        | .unit => .ok (.variant i .unit) r1 p1
+        match vs[i]? with
+        | some (_, VariantShape.unit) => .ok (.variant i .unit) r1 p1
         | _ => .raw r1 p1
     else .err .ExpectedSomeValue (p + 1)
 
